@@ -24,16 +24,14 @@ Lemma k_num_eq_cell_spec on oi cn ce : k_num_eq_cell on oi cn ce = if on then cn
 Proof. unfold k_num_eq_cell. destruct on, oi; reflexivity. Qed.
 Lemma k_group_keycell_spec {A} (b : bool) (t v : A) : k_group_keycell b t v = if b then t else v.
 Proof. unfold k_group_keycell. destruct b; reflexivity. Qed.
-Lemma k_group_newid_fresh n : k_group_newid n = n.
-Proof. reflexivity. Qed.
-Lemma k_group_grow_spec d n : k_group_grow d n = true <-> (d < n)%Z.
-Proof. unfold k_group_grow. apply Z.ltb_lt. Qed.
-Lemma k_group_newdepth_spec d n : k_group_newdepth d n = n.
-Proof. reflexivity. Qed.
-Lemma k_group_fill_spec d n : k_group_fill d n = n.
-Proof. reflexivity. Qed.
-Lemma k_group_bycell_row_spec : k_group_bycell_row = 0%Z.
-Proof. reflexivity. Qed.
+(* k_group_newid / k_group_grow / k_group_newdepth / k_group_fill / k_group_bycell_row enter only through the
+   executable model and its correspondence with the implementation: no theorem below depends on their exact
+   form, so that harmless rewrites of those lines (<= for <, [-1] for [0]) do not raise an alarm. *)
+
+Lemma k_split_multi_nocol h : k_split_multi h false = false.
+Proof. destruct (k_split_multi h false) eqn:E; [|reflexivity]. apply k_split_multi_spec in E. destruct E. discriminate. Qed.
+Lemma k_split_bad_allcol : k_split_bad true = false.
+Proof. destruct (k_split_bad true) eqn:E; [|reflexivity]. apply k_split_bad_spec in E. discriminate. Qed.
 
 (* ---------- the model's objects *)
 Definition rid_at (d : mdm) (p : nat) : N := nth p (m_rid d) 0%N.
@@ -66,8 +64,13 @@ Lemma is_nan_flt v : is_flt v && is_nan v = is_nan v.
 Proof. destruct v as [|[]| |]; reflexivity. Qed.
 Lemma key_eq_num_nonnum c v : is_num c = true -> val_num v = None -> key_eq c v = false.
 Proof.
-  unfold key_eq, py_cmp, is_num. destruct (val_num c) eqn:E; [|discriminate]. intros _ ->.
-  destruct c, v; simpl in *; try discriminate; try reflexivity; destruct f; try discriminate; reflexivity.
+  intros Hc Hv. destruct v as [z|f|s|]; simpl in Hv; try discriminate;
+    destruct c as [z'|[|s'|s'|s' m e]|s'|]; try discriminate Hc; reflexivity.
+Qed.
+
+Lemma filter_none {A} (f : A -> bool) l : (forall x, In x l -> f x = false) -> filter f l = [].
+Proof.
+  induction l as [|a l IH]; simpl; intros H; auto. rewrite (H a) by auto. apply IH. intros; apply H; auto.
 Qed.
 
 (* col == v selects the ids of exactly the rows whose cell equals v, in row order *)
@@ -85,12 +88,232 @@ Proof.
     + rewrite keep_ids_map. f_equal. apply filter_ext. intros p. symmetry. apply key_eq_not_nan_r. auto.
     + destruct (val_num v) eqn:Ev.
       * rewrite keep_ids_map. f_equal. apply filter_ext. intros p.
-        rewrite k_num_eq_cell_spec, Hn. symmetry. apply key_eq_not_nan_r. auto.
-      * symmetry. rewrite (proj2 (filter_nil_iff _ _)); [reflexivity|].
+        rewrite k_num_eq_cell_spec. cbv iota. symmetry. apply key_eq_not_nan_r. auto.
+      * rewrite filter_none; [reflexivity|].
         intros p Hp. apply key_eq_num_nonnum; auto.
     + destruct (val_num v) eqn:Ev.
       * rewrite keep_ids_map. f_equal. apply filter_ext. intros p.
-        rewrite k_num_eq_cell_spec, Hn. symmetry. apply key_eq_not_nan_r. auto.
-      * symmetry. rewrite (proj2 (filter_nil_iff _ _)); [reflexivity|].
+        rewrite k_num_eq_cell_spec. cbv iota. symmetry. apply key_eq_not_nan_r. auto.
+      * rewrite filter_none; [reflexivity|].
         intros p Hp. apply key_eq_num_nonnum; auto.
+Qed.
+
+(* ---------- selection by row id = taking positions *)
+Lemma cell_cons x l i : cell (x :: l) (S i) = cell l i.
+Proof. reflexivity. Qed.
+
+Lemma rid_inj d p q :
+  NoDup (m_rid d) -> (p < List.length (m_rid d))%nat -> (q < List.length (m_rid d))%nat ->
+  rid_at d p = rid_at d q -> p = q.
+Proof. intros ND Hp Hq E. eapply (proj1 (NoDup_nth (m_rid d) 0%N)); eauto. Qed.
+
+Lemma lookup_by_id d cs ps q :
+  NoDup (m_rid d) -> in_range d ps -> In q ps ->
+  cell (take_cells ps cs) (idx_of (rid_at d q) (map (rid_at d) ps)) = cell cs q.
+Proof.
+  intros ND. unfold take_cells. induction ps as [|a ps IH]; intros Hr Hq; [contradiction|].
+  simpl. destruct (N.eqb (rid_at d q) (rid_at d a)) eqn:E.
+  - apply N.eqb_eq in E. assert (q = a) as ->; [|reflexivity].
+    apply (rid_inj d); auto; apply Hr; first [exact Hq | simpl; auto].
+  - rewrite cell_cons. apply IH.
+    + intros p Hp. apply Hr. simpl. auto.
+    + destruct Hq as [->|Hq]; auto. rewrite N.eqb_refl in E. discriminate.
+Qed.
+
+Lemma m_selectrowid_take d ps qs :
+  NoDup (m_rid d) -> in_range d ps -> incl qs ps ->
+  m_selectrowid (m_take ps d) (map (rid_at d) qs) = m_take qs d.
+Proof.
+  intros ND Hr Hi. unfold m_selectrowid, m_take. simpl. f_equal.
+  unfold take_cols. rewrite map_map. apply map_ext. intros [[n k] cs].
+  f_equal. unfold m_getrowidkey. rewrite map_map. unfold take_cells at 2. apply map_ext_in.
+  intros q Hq. apply lookup_by_id; auto.
+Qed.
+
+(* ---------- unique *)
+Lemma distinct_ext {K} (e1 e2 : K -> K -> bool) l :
+  (forall x y, In x l -> In y l -> e1 x y = e2 x y) -> distinct e1 l = distinct e2 l.
+Proof.
+  induction l as [|a l IH]; simpl; intros H; auto.
+  rewrite IH by (intros; apply H; auto). f_equal. apply filter_ext_in.
+  intros y Hy. apply distinct_in in Hy. rewrite H; auto.
+Qed.
+
+Lemma m_safe_sorted_spec l : m_safe_sorted l = isort (unique_le l) l.
+Proof. unfold m_safe_sorted, unique_le. destruct (forallb is_num l); auto. destruct (forallb is_str l); auto. Qed.
+
+Lemma m_unique_spec k cells : cells_ok k cells -> m_unique k cells = unique cells.
+Proof.
+  intros H. unfold unique. destruct k; simpl in *.
+  - rewrite m_safe_sorted_spec.
+    rewrite (distinct_ext (py_cmp CEq) key_eq); [reflexivity|].
+    intros x y _ Hy. symmetry. apply key_eq_not_nan_r. auto.
+  - unfold unique_le. replace (forallb is_num (distinct key_eq cells)) with true; [reflexivity|].
+    symmetry. apply forallb_forall. intros x Hx. apply distinct_in in Hx. auto.
+  - unfold unique_le. replace (forallb is_num (distinct key_eq cells)) with true; [reflexivity|].
+    symmetry. apply forallb_forall. intros x Hx. apply distinct_in in Hx. auto.
+Qed.
+
+(* ---------- split *)
+Lemma find_col_take n ps v :
+  find_col n (take_cols ps v) = match find_col n v with Some (k, cs) => Some (k, take_cells ps cs) | None => None end.
+Proof.
+  induction v as [|[[m k] cs] v IH]; simpl; auto. destruct (String.eqb n m); auto.
+Qed.
+Lemma find_col_in n v k cs : find_col n v = Some (k, cs) -> exists m, In (m, k, cs) v.
+Proof.
+  induction v as [|[[m k'] cs'] v IH]; simpl; [discriminate|].
+  destruct (String.eqb n m).
+  - intros E. inversion E; subst. eauto.
+  - intros E. destruct (IH E) as [m' H]. eauto.
+Qed.
+
+Lemma take_cells_ok d k cs ps :
+  List.length cs = List.length (m_rid d) -> in_range d ps -> cells_ok k cs -> cells_ok k (take_cells ps cs).
+Proof.
+  intros Hl Hr Hok.
+  assert (forall c, In c (take_cells ps cs) -> In c cs) as Hin.
+  { intros c Hc. unfold take_cells in Hc. apply in_map_iff in Hc. destruct Hc as [p [<- Hp]].
+    unfold cell. apply nth_In. rewrite Hl. apply Hr. auto. }
+  destruct k; simpl in *; intros c Hc; apply Hok; auto.
+Qed.
+
+(* the (value, part) pairs the generator yields for one column, with or without given values,
+   on the sub-table of the rows ps *)
+Lemma m_split_vals_spec d ps kname k cs given :
+  wf_dm d -> in_range d ps -> find_col kname (m_cols d) = Some (k, cs) ->
+  m_split_vals (m_take ps d) kname given =
+    map (fun v => (v, m_take (rows_with key_eq (cell cs) v ps) d))
+        (match given with Some (x :: g) => x :: g | _ => unique (take_cells ps cs) end).
+Proof.
+  intros [ND Hcols] Hr Hf. unfold m_split_vals. simpl m_cols. rewrite find_col_take, Hf.
+  destruct (find_col_in _ _ _ _ Hf) as [m Hm]. destruct (Hcols _ _ _ Hm) as [Hl Hok].
+  rewrite k_split_values_spec.
+  assert (m_unique k (take_cells ps cs) = unique (take_cells ps cs)) as Eu
+      by (apply m_unique_spec; eapply take_cells_ok; eauto).
+  assert (forall v, m_selectrowid (m_take ps d) (m_compare_eq k (m_rid (m_take ps d)) (take_cells ps cs) v)
+                    = m_take (rows_with key_eq (cell cs) v ps) d) as Es.
+  { intros v. simpl m_rid. rewrite m_compare_eq_spec.
+    - apply m_selectrowid_take; auto. intros p Hp. apply rows_with_spec in Hp. tauto.
+    - destruct k; auto; intros p Hp; apply Hok; unfold cell; apply nth_In; rewrite Hl; apply Hr; auto. }
+  destruct given as [[|x g]|]; rewrite ?Eu; apply map_ext; intros v; rewrite Es; reflexivity.
+Qed.
+
+(* split(col1, ..., colk) on the rows ps: the L0 parts, as tables *)
+Theorem m_splitm_spec d : wf_dm d -> forall names kcols ps,
+  in_range d ps ->
+  map (fun n => match find_col n (m_cols d) with Some kc => Some (snd kc) | None => None end) names
+    = map Some kcols ->
+  m_splitm names (m_take ps d) = map (fun x => (fst x, m_take (snd x) d)) (splitm kcols ps).
+Proof.
+  intros Hwf. induction names as [|n names IH]; intros kcols ps Hr Hk; destruct kcols as [|c kcols]; try discriminate.
+  - reflexivity.
+  - simpl in Hk. inversion Hk as [[Hc Hrest]]. clear Hk.
+    destruct (find_col n (m_cols d)) as [[k cs]|] eqn:Hf; [|discriminate]. simpl in Hc. inversion Hc; subst cs.
+    simpl m_splitm. rewrite (m_split_vals_spec d ps n k c None Hwf Hr Hf). simpl splitm.
+    induction (unique (take_cells ps c)) as [|u us IHu]; simpl; auto.
+    rewrite map_app. f_equal; auto.
+    rewrite (IH kcols); auto.
+    + rewrite !map_map. apply map_ext. intros [vs qs]. reflexivity.
+    + intros p Hp. apply rows_with_spec in Hp. apply Hr. tauto.
+Qed.
+
+Lemma take_all_cells cs : take_cells (seq 0 (List.length cs)) cs = cs.
+Proof.
+  unfold take_cells, cell. induction cs as [|a cs IH]; simpl; auto.
+  f_equal. rewrite <- seq_shift, map_map. exact IH.
+Qed.
+Lemma m_take_all d : wf_dm d -> m_take (seq 0 (List.length (m_rid d))) d = d.
+Proof.
+  intros [_ Hc]. destruct d as [rid cs]. unfold m_take, rid_at. simpl in *. f_equal.
+  - clear Hc. induction rid as [|a rid IH]; simpl; auto. f_equal. rewrite <- seq_shift, map_map. exact IH.
+  - unfold take_cols. rewrite <- (map_id cs) at 2. apply map_ext_in. intros [[n k] c] Hin.
+    destruct (Hc _ _ _ Hin) as [Hl _]. rewrite <- Hl, take_all_cells. reflexivity.
+Qed.
+
+(* the generator on a whole DataMatrix: exactly the L0 parts, in the L0 order *)
+Theorem m_split_refines d names kcols :
+  wf_dm d ->
+  map (fun n => match find_col n (m_cols d) with Some kc => Some (snd kc) | None => None end) names
+    = map Some kcols ->
+  m_splitm names d = map (fun x => (fst x, m_take (snd x) d)) (splitm kcols (seq 0 (List.length (m_rid d)))).
+Proof.
+  intros Hwf Hk. rewrite <- (m_take_all d Hwf) at 1. apply m_splitm_spec; auto.
+  intros p Hp. apply in_seq in Hp. lia.
+Qed.
+
+(* split(col, v1, ..., vk) on a whole DataMatrix *)
+Theorem m_splitv_refines d kname k cs x vs :
+  wf_dm d -> find_col kname (m_cols d) = Some (k, cs) ->
+  m_split d kname [] (x :: vs) =
+    SBare (map (fun qs => m_take qs d) (splitv cs (x :: vs) (seq 0 (List.length (m_rid d))))).
+Proof.
+  intros Hwf Hf. unfold m_split. rewrite k_split_multi_nocol.
+  rewrite k_split_yield_bare_spec. f_equal.
+  rewrite <- (m_take_all d Hwf) at 1.
+  rewrite (m_split_vals_spec d _ kname k cs (Some (x :: vs)) Hwf); auto.
+  - unfold splitv. rewrite !map_map. reflexivity.
+  - intros p Hp. apply in_seq in Hp. lia.
+Qed.
+
+(* the user-level call without values *)
+Theorem m_split_cols_refines d first rest kcols :
+  wf_dm d ->
+  map (fun n => match find_col n (m_cols d) with Some kc => Some (snd kc) | None => None end) (first :: rest)
+    = map Some kcols ->
+  m_split d first rest [] =
+    SPairs (map (fun x => (fst x, m_take (snd x) d)) (splitm kcols (seq 0 (List.length (m_rid d))))).
+Proof.
+  intros Hwf Hk. unfold m_split. destruct rest as [|r rest].
+  - rewrite k_split_multi_nocol. rewrite k_split_yield_bare_spec. f_equal.
+    rewrite <- (m_split_refines d [first] kcols Hwf Hk). simpl.
+    induction (m_split_vals d first None) as [|[v sd] l IHl]; simpl; congruence.
+  - rewrite (proj2 (k_split_multi_spec _ _)) by auto.
+    rewrite k_split_bad_allcol.
+    f_equal. apply m_split_refines; auto.
+Qed.
+
+(* neither call changes its source: the model is a function of the source state and returns nothing else *)
+
+(* ---------- group: the dict key built by the code (NaN replaced by the text nan, tuples compared by ==)
+   identifies exactly the combinations that are equal in the sense of the property *)
+Lemma py_eq_self v : py_cmp CEq v v = negb (is_nan v).
+Proof.
+  pose proof (key_eq_refl v) as H. unfold key_eq in H. destruct (is_nan v) eqn:E.
+  - destruct v as [|[]| |]; try discriminate. reflexivity.
+  - rewrite andb_false_r, orb_false_r in H. rewrite H. reflexivity.
+Qed.
+Lemma m_keycell_spec v : m_keycell v = if is_nan v then VStr "nan" else v.
+Proof. unfold m_keycell. rewrite k_group_keycell_spec, py_eq_self, negb_involutive. reflexivity. Qed.
+
+Definition not_nan_text (v : val) : Prop := v <> VStr "nan".
+
+Lemma keycell_eq a b :
+  not_nan_text a -> not_nan_text b -> py_cmp CEq (m_keycell a) (m_keycell b) = key_eq a b.
+Proof.
+  intros Ha Hb. rewrite !m_keycell_spec. destruct (is_nan a) eqn:Ea, (is_nan b) eqn:Eb.
+  - destruct a as [|[]| |], b as [|[]| |]; try discriminate. reflexivity.
+  - assert (a = VFlt FNan) as -> by (destruct a as [|[]| |]; try discriminate; reflexivity).
+    rewrite key_eq_sym, key_eq_nan_r, Eb.
+    destruct b as [z|f|s|]; try reflexivity. simpl. unfold str_eqb.
+    destruct (String.eqb "nan" s) eqn:E; auto. apply String.eqb_eq in E. subst. exfalso. apply Hb. reflexivity.
+  - assert (b = VFlt FNan) as -> by (destruct b as [|[]| |]; try discriminate; reflexivity).
+    rewrite key_eq_nan_r, Ea.
+    destruct a as [z|f|s|]; try reflexivity. simpl. unfold str_eqb.
+    destruct (String.eqb s "nan") eqn:E; auto. apply String.eqb_eq in E. subst. exfalso. apply Ha. reflexivity.
+  - symmetry. apply key_eq_not_nan_r. auto.
+Qed.
+
+Theorem group_key_faithful a : forall b,
+  Forall not_nan_text a -> Forall not_nan_text b ->
+  tuple_eq (map m_keycell a) (map m_keycell b) = keys_eq a b.
+Proof.
+  induction a as [|x a IH]; intros [|y b] Ha Hb; simpl; auto.
+  inversion Ha; inversion Hb; subst. rewrite keycell_eq, IH; auto.
+Qed.
+
+(* new keys are numbered by the current size of the dict: numbers of different keys differ *)
+Lemma number_keys_length keys : forall d, List.length (number_keys keys d) = List.length keys.
+Proof.
+  induction keys as [|k r IH]; intros d; simpl; auto. destruct (dict_get k d); simpl; rewrite IH; auto.
 Qed.
